@@ -445,7 +445,7 @@ pub fn run(prop: &str, tier: &str, only: Option<String>) -> i32 {
     run.rule = match prop {
         "C01" => "every built-in type expression of the generated universe x every value of its small-scope domain (refmodel::values); a case is non-trivial when encode, decode, value comparison and model agreement were all executed for both entry points".into(),
         "C04" => "every (type, value) of the universe: library bytes == model bytes; every assignment of alternative forms (unknown-size sequences, re-plain dedup strings) decoded by the library; non-trivial = forward and backward both executed".into(),
-        "C07" => "every (type, value) x 8 suffixes decoded from a DeserializationContext; non-trivial = non-empty encoding".into(),
+        "C07" => "every (type, value) x 8 suffixes decoded from a DeserializationContext; sequences, sets and maps of 65 535 .. 131 073 elements in 7 containers followed by a suffix; non-trivial = non-empty encoding".into(),
         "C08" => "every cut point of every encoding (all of them up to 600 bytes, boundary-heavy subset beyond); non-trivial = encoding with at least one cut point".into(),
         _ => "every (type, value) through six sinks on the same instance; every operation sequence (depth <= 3 / 4, 22 operations with extreme counts) on SliceInput, OwnedInput, DeserializationContext and a DeserializationContext inside a chunk of an evolved record: step-by-step agreement and agreement with a reference cursor; every script (length <= 2 / 3) of the 18 output primitives issued by a field codec at top level, in a plain record and in chunk 0 / 1 of an evolved record, through Vec, BytesMut and SizeCalculator: bytes == the format's framing around the primitives' prescribed bytes; non-trivial = non-empty encoding".into(),
     };
@@ -496,6 +496,50 @@ pub fn run(prop: &str, tier: &str, only: Option<String>) -> i32 {
                 }
             }
             st.nontrivial += 1;
+        }
+        run.stats.merge(st);
+    }
+    if prop == "C07" && run.only.as_ref().map(|k| k.starts_with("long:")).unwrap_or(true) {
+        // long sequences: counts around 2^16 (where a reader might cap what it preallocates) in
+        // every sequence-like container, followed by a suffix
+        let mut st = Stats::default();
+        let containers = ["Vec<u16>", "std::collections::LinkedList<u16>", "std::collections::BTreeSet<u32>", "std::collections::HashSet<u32>", "std::collections::BTreeMap<u32, u8>", "std::collections::HashMap<u32, u8>", "Vec<String>"];
+        for cname in containers {
+            let Some(&ei) = u.by_name.get(cname) else { continue };
+            let e = &u.entries[ei];
+            for n in [65_535usize, 65_536, 65_537, 70_000, 131_073] {
+                let key = format!("long:{cname}:{n}");
+                if !run.selected(&key) {
+                    continue;
+                }
+                let v = match &e.ty {
+                    Ty::Map(..) => Val::Map((0..n).map(|i| (Val::U(i as u128), Val::U((i % 251) as u128))).collect()),
+                    Ty::Seq(_, t) if **t == Ty::Str => Val::Seq((0..n).map(|i| Val::Str(if i % 7 == 0 { "x".into() } else { String::new() })).collect()),
+                    _ => Val::Seq((0..n).map(|i| Val::U((i % 65_521) as u128 + if cname.contains("Set") { (i / 65_521 * 65_521) as u128 } else { 0 })).collect()),
+                };
+                let r = &(e.enc)(&v, &[Sink::ToByteVec])[0];
+                let Out::Ok(b) = &r.out else {
+                    st.violate(format!("C07 long-sequence encode type={cname}"), key, json!({"elements": n}));
+                    continue;
+                };
+                let mut input = b.clone();
+                input.extend_from_slice(&[0xee, 0x01, 0x80]);
+                let d = (e.dec_ctx)(&input);
+                st.states += 1;
+                st.transitions += 2;
+                st.validated += 1;
+                let ok = matches!(&d.out, Out::Ok(g) if canon(&e.ty, g) == canon(&e.ty, &r.actual)) && d.rest.as_deref() == Some(&[0xee, 0x01, 0x80][..]);
+                if !ok {
+                    st.violate(
+                        format!("C07 long-sequence not-self-delimiting type={cname} outcome={}", d.out.class()),
+                        key,
+                        json!({"elements": n, "encoding_len": b.len(), "unread_after_decode": d.rest.as_ref().map(|r| r.len()), "expected_unread": 3}),
+                    );
+                    continue;
+                }
+                st.bump("long-sequence:exact");
+                st.nontrivial += 1;
+            }
         }
         run.stats.merge(st);
     }
